@@ -18,7 +18,8 @@ CONSTANTS MaxLeaves,     \* leaves in one argument list
           MaxWidth,      \* items per literal
           MaxListWidth,  \* items per list literal (<= MaxWidth; smaller: the bound is spent on dict entries)
           MaxArgs,       \* arguments
-          Alpha,         \* leaf alphabet: "small", "rich" (syntax-sensitive), "vals" / "core" (value-sensitive), "mixed"
+          Alpha,         \* leaf alphabet: "small", "rich" (syntax-sensitive), "vals" / "core" (value-sensitive),
+                         \* "types" (containers by Python type), "mixed"
           AllowInvalid,  \* generate (at most one) documented-invalid construct
           StyleFrom, StyleTo    \* slice of Styles whose texts this run exports
 
@@ -110,9 +111,26 @@ ValKeys ==
 CoreLeaves == {Var("nn"), Var("z"), Var("amp"), Tpl(9), Var("hs"), Var("dn"), Filt(Str(4), <<FlA("add", Var("it"))>>)}
 CoreKeys   == {Var("nn"), Var("z"), Var("amp")}
 ASSUME ValKeys \subseteq ValLeaves /\ CoreKeys \subseteq CoreLeaves
+\* Containers by Python type (TagArgs!SeqKinds / MapKinds).  What a spread does is decided by the kind
+\* of its operand - a mapping gives keywords / entries, any other iterable gives positionals / items -
+\* so every spread (`...x` at top level, `*x` in a list literal, `**x` in a dict literal) sees every
+\* type as its operand: tuple, range, a keys() view, an empty tuple; MappingProxyType, ChainMap,
+\* UserDict, OrderedDict, an empty mapping, a mapping with non-str keys (** only); the same values
+\* through a single-tag string; and every one of them also NOT spread (argument, keyword / aggregate
+\* value, list item, dict value): then it is handed over as the object it is.
+TypeLeaves ==
+  {Var("tp"), Var("rg"), Var("ks"), Var("et"), Var("mp"), Var("cm"), Var("ud"), Var("od"), Var("em"), Var("mn"),
+   Tpl(29), Tpl(30), Var("x"), Str(4)}
+TypeKeys == {Str(4)}
+\* the core of it, for argument lists with several arguments (a spread among other arguments)
+TypeCoreLeaves == {Var("tp"), Var("ks"), Var("mp"), Var("cm"), Var("x")}
+ASSUME TypeKeys \subseteq TypeLeaves /\ TypeCoreLeaves \subseteq TypeLeaves
+ASSUME \A k \in SeqKinds \cup MapKinds : \E l \in TypeLeaves \cup SmallLeaves : \E c \in {Ctx, Ctx2} :
+          l.t = "var" /\ l.n \in DOMAIN c /\ c[l.n].t = k
 \* "mixed": the small alphabet and the core together (random walks far beyond the BFS bounds)
 Leaves == CASE Alpha = "rich" -> RichLeaves [] Alpha = "vals" -> ValLeaves [] Alpha = "core" -> CoreLeaves
-            [] Alpha = "mixed" -> SmallLeaves \cup CoreLeaves
+            [] Alpha = "types" -> TypeLeaves [] Alpha = "tcore" -> TypeCoreLeaves
+            [] Alpha = "mixed" -> SmallLeaves \cup CoreLeaves \cup {Var("tp"), Var("cm")}
             [] OTHER -> SmallLeaves
 \* leaves allowed as a dictionary key (no filter argument: inside a dict literal the first
 \* `:` ends the key - documented restriction)
@@ -120,6 +138,7 @@ SmallKeys == {Str(4), Filt(Str(4), <<Fl("upper")>>)}
 RichKeys  == {Str(2), Str(4), Str(5), Str(6), Var("x"), Var("s"), Num("42"), Trans(1), Tpl(7),
               Filt(Str(4), <<Fl("upper")>>), Filt(Var("s"), <<Fl("upper"), Fl("lower")>>)}
 KeyLeaves == CASE Alpha = "rich" -> RichKeys [] Alpha = "vals" -> ValKeys [] Alpha = "core" -> CoreKeys
+               [] Alpha = "types" -> TypeKeys [] Alpha = "tcore" -> {}
                [] Alpha = "mixed" -> CoreKeys
                [] OTHER -> SmallKeys
 \* Keyword names are fixed per argument position (which name is used does not interact with
@@ -142,15 +161,20 @@ BaseOf(v) == IF v.t = "filt" THEN v.b ELSE v
 ListyLeaf(v) == \/ /\ BaseOf(v).t = "var" /\ BaseOf(v).n \in {"xs", "ys", "e0"}
                    /\ (v.t = "filt" => v = Filt(Var("xs"), <<FlA("slice", Str(9))>>))
                 \/ v.t = "var" /\ v.n = "hs"
-                \/ TplVar(v) /\ Ctx[SpreadBase(v).n].t = "list"
+                \* a variable / single-tag string whose value is an iterable that is no mapping (any type)
+                \/ v.t = "var" /\ v.n \in DOMAIN Ctx /\ Ctx[v.n].t \in SeqKinds
+                \/ TplVar(v) /\ Ctx[SpreadBase(v).n].t \in SeqKinds
 \* operand that may be spread into keyword arguments (every key a str) ...
 KwDictyLeaf(v) == \/ v.t = "var" /\ v.n \in {"d", "d2", "dh"}
+                  \* a variable whose value is a mapping (any type) with str keys only
+                  \/ v.t = "var" /\ v.n \in DOMAIN Ctx /\ StrKeyed(v.n)
                   \/ v = Filt(Var("d2"), <<FlA("default", Var("d"))>>)
                   \/ TplVar(v) /\ StrKeyed(SpreadBase(v).n)
 \* ... or into a dict literal (any hashable key: None, 0, "", text)
 DictyLeaf(v) == \/ KwDictyLeaf(v)
                 \/ v.t = "var" /\ v.n = "dn"
-                \/ TplVar(v) /\ Ctx[SpreadBase(v).n].t = "dict"
+                \/ v.t = "var" /\ v.n \in DOMAIN Ctx /\ Ctx[v.n].t \in MapKinds
+                \/ TplVar(v) /\ Ctx[SpreadBase(v).n].t \in MapKinds
 ListOp(v) == v.t = "list" \/ ListyLeaf(v)
 DictOp(v) == v.t = "dict" \/ DictyLeaf(v)
 KwDictOp(v) == v.t = "dict" \/ KwDictyLeaf(v)
@@ -165,10 +189,10 @@ RECURSIVE LitKeys(_, _)
 VarKeys(n) == UNION {{Ctxs[k][n].items[i].k.s : i \in {j \in 1..Len(Ctxs[k][n].items) : Ctxs[k][n].items[j].k.t = "str"}}
                      : k \in 1..Len(Ctxs)}
 OperandKeys(v) ==
-  CASE v.t = "var"  -> IF Ctx[v.n].t = "dict" THEN VarKeys(v.n) ELSE {}
+  CASE v.t = "var"  -> IF Ctx[v.n].t \in MapKinds THEN VarKeys(v.n) ELSE {}
     [] v.t = "filt" -> VarKeys("d") \cup VarKeys("d2")
     [] v.t = "dict" -> LitKeys(v.items, 1)
-    [] TplVar(v)    -> IF Ctx[SpreadBase(v).n].t = "dict" THEN VarKeys(SpreadBase(v).n) ELSE {}
+    [] TplVar(v)    -> IF Ctx[SpreadBase(v).n].t \in MapKinds THEN VarKeys(SpreadBase(v).n) ELSE {}
     [] OTHER        -> {}
 LitKeys(items, i) ==
   IF i > Len(items) THEN {}
